@@ -22,8 +22,8 @@ type Case struct {
 	Reader int       `json:"reader,omitempty"` // io.Reader behaviour of the read side (readerModes)
 	N      int       `json:"n,omitempty"`      // splat-ladder: number of generated splats
 	Splat  []SplatIn `json:"splat,omitempty"`
-	Spz   *SpzFile  `json:"spz,omitempty"`
-	Ply   *PlyCase  `json:"ply,omitempty"`
+	Spz    *SpzFile  `json:"spz,omitempty"`
+	Ply    *PlyCase  `json:"ply,omitempty"`
 }
 
 type checker struct {
